@@ -6,7 +6,7 @@ by exact interval algebra over the integers.
 """
 import ast
 
-from ..dectable import IntSet, int_table, label_lookup_table, label_loop_table, label_table, sym_int_table
+from ..dectable import IntSet, int_table, label_lookup_table, label_loop_table, label_table, normalise_scale_function, sym_int_table
 from ..loader import AnalysisError
 from ..report import key
 
@@ -52,10 +52,19 @@ def run(ctx):
             except AnalysisError:
                 return None
             return v if isinstance(v, (list, tuple, dict)) else None
+        def resolve_const(name, _scope=fv.scope):
+            try:
+                v = _ev.eval(ast.Name(id=name, ctx=ast.Load()), _scope)
+            except Exception:
+                return None
+            return v if isinstance(v, (str, int)) and not isinstance(v, bool) else None
+        # named constants and loops over constant tables are read through (substituted / unrolled), never executed
+        fv_node = normalise_scale_function(fv.node, resolve_const, resolve_seq)
+        tv_node = normalise_scale_function(tv.node, resolve_const, resolve_seq)
         try:
-            rows = int_table(fv.node, fv.params[0])
+            rows = int_table(fv_node, fv.params[0])
             # self-check of the two readers against each other (same function, two independent derivations)
-            rows2 = sym_int_table(fv.node, fv.params[0], resolve_seq)
+            rows2 = sym_int_table(fv_node, fv.params[0], resolve_seq)
 
             def by_outcome(rs):
                 d = {}
@@ -67,13 +76,13 @@ def run(ctx):
         except AnalysisError as e:
             if "disagree" in str(e):
                 raise
-            rows = sym_int_table(fv.node, fv.params[0], resolve_seq)
+            rows = sym_int_table(fv_node, fv.params[0], resolve_seq)
         # labels are matched EXACTLY: the label argument is only compared (==, in), used as a lookup key, type-tested, or
         # quoted in the error message.  Any conversion on the way (int(), str(), .strip(), .lower(), float(), arithmetic)
         # makes strings that are not labels ('05', ' 7', '+3', other objects) acceptable -- decided before the table is read
         lp = tv.params[0]
         conv = []
-        for x in ast.walk(tv.node):
+        for x in ast.walk(tv_node):
             if not (isinstance(x, ast.Name) and x.id == lp and isinstance(x.ctx, ast.Load)):
                 continue
             par = getattr(x, "parent", None)
@@ -86,6 +95,11 @@ def run(ctx):
             if in_raise:
                 continue
             if isinstance(par, ast.Compare):
+                # equality / membership only: `is` compares object IDENTITY -- true for interned literals, false for an equal
+                # label built at run time (decoded from JSON, sliced, joined)
+                if any(isinstance(o_, (ast.Is, ast.IsNot)) for o_ in par.ops) and not all(
+                        isinstance(c_, ast.Constant) and c_.value is None for c_ in [par.left] + par.comparators if c_ is not x):
+                    conv.append(par)
                 continue
             if isinstance(par, ast.Subscript) and par.slice is x:
                 continue
@@ -105,7 +119,7 @@ def run(ctx):
         else:
             continue
         try:
-            ltab, ldefault = label_table(tv.node, tv.params[0])
+            ltab, ldefault = label_table(tv_node, tv.params[0])
         except AnalysisError:
             from ..tableeval import Evaluator
             ev = Evaluator(prog, allow_dyn=True)
@@ -118,9 +132,9 @@ def run(ctx):
                     return None
                 return v if isinstance(v, dict) else None
             try:
-                ltab, ldefault = label_lookup_table(tv.node, tv.params[0], resolve)
+                ltab, ldefault = label_lookup_table(tv_node, tv.params[0], resolve)
             except AnalysisError:
-                ltab, ldefault = label_loop_table(tv.node, tv.params[0], resolve_seq)
+                ltab, ldefault = label_loop_table(tv_node, tv.params[0], resolve_seq)
         tables[sname] = {"from_value": [{"region": r.to_json(), "outcome": list(oc)} for r, oc, ln, _ in rows],
                          "to_value": {k: list(v) for k, v in ltab.items()}, "to_value_else": list(ldefault)}
         base = key(m.relpath, sc["from_value"], "")
